@@ -10,6 +10,7 @@ import (
 	"fmt"
 	"hash/crc32"
 	"runtime"
+	"runtime/debug"
 	"sort"
 	"strings"
 	"sync"
@@ -35,7 +36,7 @@ const crWdTimeout = 20 * time.Second
 // callW runs f under a watchdog: hung is true when f did not return within d (f keeps running).
 func crCall(d time.Duration, f func() error) (err error, hung bool) {
 	ch := make(chan error, 1)
-	go func() { ch <- f() }()
+	go func() { ch <- crNoPanic(f) }()
 	t := time.NewTimer(d)
 	defer t.Stop()
 	select {
@@ -50,7 +51,7 @@ func crCall(d time.Duration, f func() error) (err error, hung bool) {
 // counts as hung only when it neither returned nor the progress counter moved for d.
 func crCallP(d time.Duration, progress *int64, f func() error) (err error, hung bool) {
 	ch := make(chan error, 1)
-	go func() { ch <- f() }()
+	go func() { ch <- crNoPanic(f) }()
 	last := atomic.LoadInt64(progress)
 	lastMove := time.Now()
 	tk := time.NewTicker(250 * time.Millisecond)
@@ -67,6 +68,37 @@ func crCallP(d time.Duration, progress *int64, f func() error) (err error, hung 
 			}
 		}
 	}
+}
+
+// crPanicErr is what a watched call returns when it panicked (no property allows a crash).
+type crPanicErr struct {
+	Val   interface{}
+	Stack string
+}
+
+func (p *crPanicErr) Error() string { return fmt.Sprintf("PANIC: %v", p.Val) }
+
+func crNoPanic(f func() error) (err error) {
+	defer func() {
+		if p := recover(); p != nil {
+			err = &crPanicErr{p, string(debug.Stack())}
+		}
+	}()
+	return f()
+}
+
+// crPanicSite names the innermost goleveldb frame of a panic stack (stable part of a signature).
+func crPanicSite(stack string) string {
+	for _, l := range strings.Split(stack, "\n") {
+		if strings.HasPrefix(l, "github.com/syndtr/goleveldb/leveldb") {
+			l = strings.TrimPrefix(l, "github.com/syndtr/goleveldb/")
+			if i := strings.LastIndexByte(l, '('); i > 0 {
+				l = l[:i]
+			}
+			return l
+		}
+	}
+	return "unknown"
 }
 
 func crGoroutines() string {
